@@ -70,6 +70,23 @@ def _bc_table(fn) -> Dict[str, Dict[str, str]]:
                     r_ = _norm(c.args[0])
             if r_ is not None and "N" in env and isinstance(env["N"], ast.AST):
                 r_ = r_.replace(_norm(env["N"]), "N")            # the grid size is written N in the table
+            # rows cut off afterwards by a slice with literal bounds: M[a:-b] has a + b rows fewer
+            cut = 0
+            for c in ast.walk(env["Dmat"]):
+                if isinstance(c, ast.Subscript) and isinstance(c.slice, ast.Slice) and c.slice.step is None and any(
+                        isinstance(x, ast.Call) and call_name(x) in ("spdiags", "eye") for x in ast.walk(c.value)):
+                    lo, hi = c.slice.lower, c.slice.upper
+                    lo_v = 0 if lo is None else (lo.value if isinstance(lo, ast.Constant) and isinstance(lo.value, int) else None)
+                    hi_v = 0 if hi is None else (-hi.operand.value if isinstance(hi, ast.UnaryOp) and isinstance(hi.op, ast.USub) and isinstance(hi.operand, ast.Constant) else None)
+                    if lo_v is None or hi_v is None or lo_v < 0 or hi_v > 0:
+                        r_ = None
+                    else:
+                        cut += lo_v - hi_v
+            import re as _re
+            m_ = _re.fullmatch(r"N(?:([+-])(\d+))?", r_ or "")
+            if m_ and cut:
+                off = (int(m_.group(2)) if m_.group(2) else 0) * (1 if m_.group(1) != "-" else -1) - cut
+                r_ = "N" + (f"+{off}" if off > 0 else (str(off) if off < 0 else ""))
             rows.add(r_)
         if rows:
             out[lit] = {"rows": rows.pop() if len(rows) == 1 else None}
@@ -237,6 +254,15 @@ def run(chk, repo: Repo):
             accepted.add(tt.ast.comparators[0].value)
     if not accepted:
         raise AnchorError("GMRF.__init__: boundary-condition dispatch not found")
+    # the documented row counts of the 1-D stencils (instance table confirmed by hand): order k with zero / periodic boundary N + k rows, neumann N - k
+    # (pure k-th differences, null space = polynomials of degree < k), first-order backward / none N
+    ROWS = {1: {"zero": "N+1", "periodic": "N+1", "neumann": "N-1", "backward": "N", "none": "N"}, 2: {"zero": "N+2", "periodic": "N+2", "neumann": "N-2"}}
+    for order_, tab, cls_ in ((1, t1, fo), (2, t2, so)):
+        wrong = {bc: r_["rows"] for bc, r_ in tab.items() if bc in ROWS[order_] and r_["rows"] != ROWS[order_][bc]}
+        chk.add("C20-R3", f"{cls_.qual}._create_diff_matrix/rows", not wrong, site(repo, cls_.methods["_create_diff_matrix"]) if "_create_diff_matrix" in cls_.methods else "",
+                f"rows per boundary condition {ROWS[order_]}",
+                f"order-{order_} stencil has {wrong} rows, documented {({bc: ROWS[order_][bc] for bc in wrong})}: with other row counts the operator is not the k-th difference with that "
+                f"boundary condition (e.g. truncated boundary rows make D.T @ D positive definite and the improper prior's null space is lost)")
     miss1, miss2 = sorted(accepted - set(t1)), sorted(accepted - set(t2))
     chk.add("C20-R3", f"{gm.qual}.__init__/bc-vs-operators", not miss1 and not miss2, site(repo, ginit),
             f"GMRF accepts {sorted(accepted)}; first-order implements {sorted(t1)}, second-order {sorted(t2)}",
